@@ -11,9 +11,11 @@ func init() { generators["log"] = genLog }
 
 // genLog extracts from log/logging.go: the severity constants (typed `Severity = n` in one const block),
 // the capacity of logBuffer (make(chan *logLine, N) in Start) and of logsWaiting (make(chan struct{}, N)),
+// the merge decision `(*logLine).Equal` as a Lean function over the fields of `logLine` (see genLogEqual),
 // and from log/output.go / log/input.go nothing (their logic is modelled by hand and tied by traces).
 func genLog() {
 	fset, f := parseFile("log/logging.go")
+	equalDef := genLogEqual(fset, f) + genLogNames(fset, f)
 	type sev struct {
 		name string
 		val  string
@@ -107,6 +109,248 @@ func genLog() {
 	fmt.Fprintf(&sb, "\n/-- `logBuffer = make(chan *logLine, N)`. -/\ndef bufferCap : Nat := %s\n", caps["logBuffer"])
 	fmt.Fprintf(&sb, "\n/-- `logsWaiting = make(chan struct{}, N)`. -/\ndef logsWaitingCap : Nat := %s\n", caps["logsWaiting"])
 	fmt.Fprintf(&sb, "\n/-- `forceEmptyingOfBuffer = make(chan struct{})` (0 = rendezvous). -/\ndef forceEmptyingCap : Nat := %s\n", caps["forceEmptyingOfBuffer"])
+	sb.WriteString(equalDef)
 	sb.WriteString("\nend PB.Gen.Log\n")
 	write("Log.lean", sb.String())
+}
+
+// logLineFields is the `logLine` struct as the model knows it. `timestamp` exists but is not part of the
+// model (Equal must not look at it); any other field is an unknown shape.
+var logLineFields = []string{"msg", "tracer", "level", "timestamp", "file", "line"}
+
+// genLogEqual regenerates the merge decision of the writer, `func (ll *logLine) Equal(ol *logLine) bool`:
+// a tagless switch whose cases each `return false`, followed by `return true`. Every case condition is a
+// boolean combination (||, &&, !, parentheses) of
+//
+//	<a>.<field> != <b>.<field>   (a, b the two lines, field one of msg, file, line, level; also ==)
+//	<a>.tracer != nil            (also == nil)
+//
+// Anything else (another field, a prefix/slice of the message, a call, a case that returns something else,
+// a default clause, statements before the switch) is an unknown shape: fail closed.
+func genLogEqual(fset *token.FileSet, f *ast.File) string {
+	// the struct: exactly the fields the model was written against
+	var st *ast.StructType
+	for _, d := range f.Decls {
+		gd, ok := d.(*ast.GenDecl)
+		if !ok || gd.Tok != token.TYPE {
+			continue
+		}
+		for _, sp := range gd.Specs {
+			ts := sp.(*ast.TypeSpec)
+			if ts.Name.Name == "logLine" {
+				st, _ = ts.Type.(*ast.StructType)
+			}
+		}
+	}
+	if st == nil {
+		die("log: struct logLine not found")
+	}
+	var got []string
+	for _, fl := range st.Fields.List {
+		if len(fl.Names) == 0 {
+			die("log: logLine has an embedded field")
+		}
+		for _, n := range fl.Names {
+			got = append(got, n.Name)
+		}
+	}
+	if strings.Join(got, ",") != strings.Join(logLineFields, ",") {
+		die("log: logLine fields are %v, the model knows %v", got, logLineFields)
+	}
+	fd := findFunc(f, "Equal", "logLine")
+	if fd == nil {
+		die("log: (*logLine).Equal not found")
+	}
+	if len(fd.Recv.List[0].Names) != 1 || fd.Type.Params == nil || len(fd.Type.Params.List) != 1 ||
+		len(fd.Type.Params.List[0].Names) != 1 {
+		die("log: Equal: unexpected receiver/parameters")
+	}
+	side := map[string]string{fd.Recv.List[0].Names[0].Name: "ll", fd.Type.Params.List[0].Names[0].Name: "ol"}
+	if len(side) != 2 {
+		die("log: Equal: receiver and parameter have the same name")
+	}
+	if len(fd.Body.List) != 2 {
+		die("log: Equal: expected `switch {…}; return true`, found %d statements", len(fd.Body.List))
+	}
+	sw, ok := fd.Body.List[0].(*ast.SwitchStmt)
+	if !ok || sw.Tag != nil || sw.Init != nil {
+		die("log: Equal: expected a tagless switch")
+	}
+	isReturn := func(s ast.Stmt, val string) bool {
+		r, ok := s.(*ast.ReturnStmt)
+		if !ok || len(r.Results) != 1 {
+			return false
+		}
+		id, ok := r.Results[0].(*ast.Ident)
+		return ok && id.Name == val
+	}
+	if !isReturn(fd.Body.List[1], "true") {
+		die("log: Equal: last statement is not `return true`")
+	}
+	// field of one of the two lines
+	sel := func(e ast.Expr) (string, string) {
+		s, ok := e.(*ast.SelectorExpr)
+		if !ok {
+			die("log: Equal: unexpected operand %s", exprString(fset, e))
+		}
+		id, ok := s.X.(*ast.Ident)
+		if !ok || side[id.Name] == "" {
+			die("log: Equal: unexpected operand %s", exprString(fset, e))
+		}
+		return side[id.Name], s.Sel.Name
+	}
+	leanField := map[string]string{"msg": "msg", "file": "file", "line": "line", "level": "level"}
+	var cond func(e ast.Expr) string
+	cond = func(e ast.Expr) string {
+		switch x := e.(type) {
+		case *ast.ParenExpr:
+			return cond(x.X)
+		case *ast.UnaryExpr:
+			if x.Op != token.NOT {
+				die("log: Equal: unexpected unary operator %s", x.Op)
+			}
+			return "(!" + cond(x.X) + ")"
+		case *ast.BinaryExpr:
+			switch x.Op {
+			case token.LOR:
+				return "(" + cond(x.X) + " || " + cond(x.Y) + ")"
+			case token.LAND:
+				return "(" + cond(x.X) + " && " + cond(x.Y) + ")"
+			case token.NEQ, token.EQL:
+				op := map[token.Token]string{token.NEQ: "!=", token.EQL: "=="}[x.Op]
+				if id, ok := x.Y.(*ast.Ident); ok && id.Name == "nil" {
+					s, fld := sel(x.X)
+					if fld != "tracer" {
+						die("log: Equal: %s compared with nil", exprString(fset, x.X))
+					}
+					if x.Op == token.NEQ {
+						return s + ".tracer"
+					}
+					return "(!" + s + ".tracer)"
+				}
+				s1, f1 := sel(x.X)
+				s2, f2 := sel(x.Y)
+				if f1 != f2 || s1 == s2 || leanField[f1] == "" {
+					die("log: Equal: unexpected comparison %s", exprString(fset, x))
+				}
+				return "(" + s1 + "." + leanField[f1] + " " + op + " " + s2 + "." + leanField[f2] + ")"
+			}
+			die("log: Equal: unexpected operator %s in %s", x.Op, exprString(fset, x))
+		}
+		die("log: Equal: unexpected condition %s", exprString(fset, e))
+		return ""
+	}
+	var sb strings.Builder
+	var srcs, conds []string
+	for _, s := range sw.Body.List {
+		cc := s.(*ast.CaseClause)
+		if len(cc.List) != 1 {
+			die("log: Equal: a case with %d conditions (default clause or list)", len(cc.List))
+		}
+		if len(cc.Body) != 1 || !isReturn(cc.Body[0], "false") {
+			die("log: Equal: case %s does not just `return false`", exprString(fset, cc.List[0]))
+		}
+		srcs = append(srcs, exprString(fset, cc.List[0]))
+		conds = append(conds, cond(cc.List[0]))
+	}
+	sb.WriteString("\n/-- What `(*logLine).Equal` can see of a `logLine`: every field except the timestamp, the tracer as\n")
+	sb.WriteString("    \"is non-nil\". -/\nstructure LineKey where\n  msg : Nat\n  tracer : Bool\n  file : Nat\n  line : Nat\n  level : Nat\n  deriving DecidableEq, Repr\n")
+	sb.WriteString("\n/-- The case conditions of the switch in `(*logLine).Equal` (log/logging.go), in source order; every\n")
+	sb.WriteString("    case returns false, falling through all of them returns true. -/\ndef equalCases : List String :=\n  [")
+	for i, s := range srcs {
+		if i > 0 {
+			sb.WriteString(",\n   ")
+		}
+		fmt.Fprintf(&sb, "%q", s)
+	}
+	sb.WriteString("]\n")
+	sb.WriteString("\n/-- `ll.Equal(ol)`, regenerated from that switch. -/\ndef lineEqual (ll ol : LineKey) : Bool :=\n")
+	for _, c := range conds {
+		fmt.Fprintf(&sb, "  if %s then false else\n", c)
+	}
+	sb.WriteString("  true\n")
+	return sb.String()
+}
+
+// genLogNames regenerates the two name tables of log/logging.go:
+//
+//	func ParseLevel(level string) Severity { switch strings.ToLower(level) { case "trace": return 1 … }; return 0 }
+//	func (s Severity) Name() string       { switch s { case TraceLevel: return "trace" … default: return "none" } }
+//
+// Start() turns the -log / -plog flags into the levels in force through ParseLevel.
+func genLogNames(fset *token.FileSet, f *ast.File) string {
+	var sb strings.Builder
+	// ParseLevel
+	pl := findFunc(f, "ParseLevel", "")
+	if pl == nil || len(pl.Body.List) != 2 {
+		die("log: ParseLevel: expected `switch …; return 0`")
+	}
+	sw, ok := pl.Body.List[0].(*ast.SwitchStmt)
+	if !ok || sw.Init != nil || exprString(fset, sw.Tag) != "strings.ToLower(level)" {
+		die("log: ParseLevel: expected a switch on strings.ToLower(level)")
+	}
+	if r, ok := pl.Body.List[1].(*ast.ReturnStmt); !ok || len(r.Results) != 1 || constVal(fset, r.Results[0]).ExactString() != "0" {
+		die("log: ParseLevel: does not end with `return 0`")
+	}
+	sb.WriteString("\n/-- `ParseLevel`: the cases of its switch on the lower-cased name; any other name yields 0. -/\ndef levelNames : List (String × Nat) :=\n  [")
+	for i, st := range sw.Body.List {
+		cc := st.(*ast.CaseClause)
+		if len(cc.List) != 1 || len(cc.Body) != 1 {
+			die("log: ParseLevel: unexpected case shape")
+		}
+		lit, ok := cc.List[0].(*ast.BasicLit)
+		r, ok2 := cc.Body[0].(*ast.ReturnStmt)
+		if !ok || lit.Kind != token.STRING || !ok2 || len(r.Results) != 1 {
+			die("log: ParseLevel: unexpected case %s", exprString(fset, cc.List[0]))
+		}
+		if i > 0 {
+			sb.WriteString(", ")
+		}
+		fmt.Fprintf(&sb, "(%s, %s)", lit.Value, constVal(fset, r.Results[0]).ExactString())
+	}
+	sb.WriteString("]\n")
+	// Severity.Name
+	nm := findFunc(f, "Name", "Severity")
+	if nm == nil || len(nm.Body.List) != 1 {
+		die("log: Severity.Name: expected a single switch")
+	}
+	sw, ok = nm.Body.List[0].(*ast.SwitchStmt)
+	if !ok || sw.Init != nil || exprString(fset, sw.Tag) != nm.Recv.List[0].Names[0].Name {
+		die("log: Severity.Name: expected a switch on the receiver")
+	}
+	sb.WriteString("\n/-- `Severity.Name`: constant name → text, and the text of the default clause. -/\ndef severityNames : List (String × String) :=\n  [")
+	def := ""
+	n := 0
+	for _, st := range sw.Body.List {
+		cc := st.(*ast.CaseClause)
+		if len(cc.Body) != 1 {
+			die("log: Severity.Name: unexpected case shape")
+		}
+		r, ok := cc.Body[0].(*ast.ReturnStmt)
+		if !ok || len(r.Results) != 1 {
+			die("log: Severity.Name: case does not return")
+		}
+		lit, ok := r.Results[0].(*ast.BasicLit)
+		if !ok || lit.Kind != token.STRING {
+			die("log: Severity.Name: case does not return a string literal")
+		}
+		if cc.List == nil {
+			def = lit.Value
+			continue
+		}
+		id, ok := cc.List[0].(*ast.Ident)
+		if len(cc.List) != 1 || !ok {
+			die("log: Severity.Name: unexpected case %s", exprString(fset, cc.List[0]))
+		}
+		if n > 0 {
+			sb.WriteString(", ")
+		}
+		n++
+		fmt.Fprintf(&sb, "(%q, %s)", id.Name, lit.Value)
+	}
+	if def == "" {
+		die("log: Severity.Name: no default clause")
+	}
+	fmt.Fprintf(&sb, "]\ndef severityNameDefault : String := %s\n", def)
+	return sb.String()
 }
